@@ -484,7 +484,7 @@ def size_writers(run, R="RNG"):
                 if owner is None:
                     prev = [x for x in pr[:-1] if isinstance(x, dict) and x.get("ty")]
                     owner = prev[-1]["ty"] if prev else f.local_ty(st["place"]["l"])
-                if "bigint::BigInt" in (owner or ""):
+                if re.search(r"(^|::)BigInt$", (owner or "").replace("&mut ", "").replace("&", "")):
                     writers.setdefault(root, []).append(("store", st["span"]))
             if st["rv"]["k"] == "agg" and st["rv"].get("agg") == "adt" and st["rv"].get("adt", "").endswith("bigint::BigInt"):
                 flds = st["rv"].get("fields") or []
